@@ -248,6 +248,12 @@ def run(repo, rep, tier):
     # a node's settings (its default marker, its escape set) reach the
     # engine that compiles its expression
     L.engine_fields_rule(repo, rep, "R02.2")
+    # the text of an interpolated expression is compiled with the escape
+    # set of its place, whether or not the text is a translation candidate
+    # (C06 owns the interpolation loop)
+    from . import c06 as _c06
+    L.borrow(repo, rep, "R02.2", "C06", _c06._decode,
+             ("decode-before-parse",))
     L.state_rule(repo, rep)
 
 
